@@ -12,6 +12,7 @@ C16 (and C12 "every such quantity fits its integer type") — machine-integer sa
 * `PcProofs/SafetyEasy.lean`: checked = unchecked whenever the final value fits (non-negative terms ⇒ prefixes ≤ total).
 -/
 import PcProofs.SafetyEasy
+import PcProofs.SafetyACBound
 import PcModel.Drv.EasyLoops
 
 namespace Pc.C16Safety3
@@ -102,7 +103,42 @@ theorem S2_easy_128_no_overflow_partial {t : NT} (hv : t.Valid) {w : ITy} {x y c
     exact s2EasyLibdivideC_eq_NT hv hy hy63 hx hc3 hoob le_rfl hs
       (fun b h1 h2 => by have := hprod b h1 h2; omega) hM hS
 
+/-! ## Gourdon's A and the C2 part of C (src/gourdon/AC.cpp) — VALUE bounds only -/
+
+/-- the general counting bound behind `S2_easy ≤ x` and `C2 ≤ x`: for ANY set `S` of levels `b ≥ 2` and ANY sets `J b` of second prime
+    indices `j > b` with `p_b² p_j ≤ x`: `Σ_b Σ_{j ∈ J b} (π(x / (p_b p_j)) - b + 2) ≤ x` -/
+theorem easy_pairs_bound (x : ℕ) (S : Finset ℕ) (hS : ∀ b ∈ S, 2 ≤ b) (J : ℕ → Finset ℕ)
+    (hJ : ∀ b ∈ S, ∀ j ∈ J b, b < j ∧ Spec.p b * Spec.p b * Spec.p j ≤ x) :
+    ∑ b ∈ S, ∑ j ∈ J b, ((π (x / (Spec.p b * Spec.p j)) : ℤ) - b + 2) ≤ x :=
+  easy_pairs_sum_le x S hS J hJ
+
+/-- **`A` and the `C2` part of `C` — PARTIAL (value bounds; the width-checked mirrors of the `A` / `C1` / `C2` kernels of AC.cpp are not
+    written)**: `0 ≤ A ≤ 12 x` for all arguments (prime triples; enough for `int128_t` up to `x = 10^31` and for `int64_t` up to
+    `x ≤ 2^63 / 12`), and for every set `S` of levels `b ≥ 2` above `π√z` (`p_b ≤ y ≤ z`; there every `m` of the C-leaves is a prime
+    and all terms are `≥ 0`) `0 ≤ Σ_{b ∈ S} -Cterm x y z b ≤ x` — every prefix of the `C2` accumulation, in any order, fits `T` as soon
+    as `x` does.  Missing: `A ≤ x` near `2^63` (needs a Mertens-type bound), the `C1` levels `b ≤ π√z` (signed terms). -/
+theorem A_C2_value_bounds_partial (x y z w c3 : ℕ) (hyz : y ≤ z) (S : Finset ℕ)
+    (hS : ∀ b ∈ S, 2 ≤ b ∧ π (Nat.sqrt z) < b ∧ Spec.p b ≤ y) :
+    (0 ≤ Spec.A x y w c3 ∧ Spec.A x y w c3 ≤ 12 * x) ∧
+    (0 ≤ ∑ b ∈ S, (- Spec.Cterm x y z b) ∧ ∑ b ∈ S, (- Spec.Cterm x y z b) ≤ x) :=
+  ⟨⟨A_nonneg x y w c3, A_le x y w c3⟩,
+   ⟨C2_part_nonneg x y z hyz S (fun b hb => ⟨by have := (hS b hb).1; omega, (hS b hb).2⟩), C2_part_le x y z hyz S hS⟩⟩
+
 /-! ## non-vacuity (tests, labelled as such) -/
+
+/-- the hypotheses of `A_C2_value_bounds_partial` are satisfiable with a non-empty `S`: `y = z = 60`, level `b = 5` (`p 5 = 11 > √60`) -/
+example := A_C2_value_bounds_partial 100000 60 60 17 46 le_rfl {5} (by
+  intro b hb
+  rw [Finset.mem_singleton] at hb
+  subst hb
+  have h5 : Spec.p 5 = 11 := by
+    have : Nat.primeCounting 11 = 5 := by decide
+    rw [← this]; exact Spec.p_pi_of_prime (by norm_num)
+  have hs : Nat.sqrt 60 = 7 := by symm; rw [Nat.eq_sqrt]; norm_num
+  refine ⟨by norm_num, ?_, ?_⟩
+  · rw [hs]; decide
+  · rw [h5]; norm_num)
+
 
 /-- `S2_easy(100000, 60, 3) = 49`, team of 3 threads: the hypotheses of the 64-bit theorem are satisfiable -/
 example := S2_easy_64_no_overflow (NT.build_valid 100) (w := .i64) (x := 100000) (y := 60) (c := 3) (by norm_num)
@@ -126,3 +162,5 @@ end Pc.C16Safety3
 #print axioms Pc.C16Safety3.S2_easy_bounds
 #print axioms Pc.C16Safety3.S2_easy_64_no_overflow
 #print axioms Pc.C16Safety3.S2_easy_128_no_overflow_partial
+#print axioms Pc.C16Safety3.easy_pairs_bound
+#print axioms Pc.C16Safety3.A_C2_value_bounds_partial
